@@ -442,4 +442,22 @@ def run(ctx, ck):
                       '180 degrees about the vertical changes the decision' % (norm(c)[:60], norm(hit)[:50]))
     ck.ob('R-SYM.direction-sign', 'package', n_dir == 0, m.func('pulse.Pulse.is_non_vertical_grounded').loc(),
           'no ordering test on a signed horizontal direction component' if n_dir == 0 else '%d sign-dependent tests' % n_dir)
+    # the values as entered (`*_unscaled`) are kept for the option writer only: computing with them ignores the scaling
+    ck.rule('R-DEP.unscaled-for-writer', 'attributes holding the geometry as entered (`*_unscaled`) are read by the option writers only')
+    from ..rules import writer_functions
+    wset_ = {g_.qual for g_ in writer_functions(ctx, ('as_cmdline',), ())}
+    n_un = 0
+    for g_ in m.all_funcs():
+        for x_ in walk_no_nested(g_.node):
+            if isinstance(x_, ast.Attribute) and isinstance(x_.ctx, ast.Load) and x_.attr.endswith('_unscaled'):
+                p_ = parent(x_)
+                none_test = isinstance(p_, ast.Compare) and len(p_.ops) == 1 and isinstance(p_.ops[0], (ast.Is, ast.IsNot)) and \
+                    isinstance(p_.comparators[0], ast.Constant) and p_.comparators[0].value is None
+                n_un += 1
+                ok_ = g_.qual in wset_ or g_.name.startswith('as_cmdline') or none_test
+                ck.ob('R-DEP.unscaled-for-writer', '%s|%s' % (g_.qual, norm(x_)), ok_, g_.loc(x_),
+                      'written back as entered' if ok_ else
+                      '%s computes with %s, the value as entered before --geo-scale: the result does not scale with the '
+                      'structure' % (g_.qual, norm(x_)))
+    ck.floor('reads of the as-entered geometry', n_un, 3)
     ck.undecided += ['invariance of impedances, currents and pattern to 5e-4 (numeric)']
